@@ -17,10 +17,12 @@ K  kernel:    Gram matrices of the kernel object  ==  textbook Matern-5/2 (ARD /
               K(X,X*) == K(X*,X)^T; diag(K(X,X)) == diagonal(X) == covariance scale; single-pair calls
               k(x_i, x_j) == K[i, j]. Warped / product / range kernels additionally against their own
               textbook composition (the Kumaraswamy warp is checked separately, the inner Matern on the
-              code's warped inputs); exponential-decay / freeze-thaw resource kernels and every composed
-              kernel (products of a stationary and a non-stationary factor, warped or not): consistency
-              checks only, incl. diag(K(X,X)) == diagonal(X) and "diagonal_depends_on_X() is False  =>
-              diagonal() and the Gram diagonal are the same at X, X* and fresh points".
+              code's warped inputs); exponential-decay (delta free / fixed to 0, 1 or inside (0,1),
+              non-zero configuration mean) / freeze-thaw / Fabolas kernels and every composed kernel
+              (products of a stationary and a non-stationary factor, warped or not) against a reference
+              derived from their generative model (Gram entries, diagonal(), exp-decay mean function),
+              plus diag(K(X,X)) == diagonal(X) and "diagonal_depends_on_X() is False  => diagonal() and
+              the Gram diagonal are the same at X, X* and fresh points".
               After that the Gram matrices are taken from the kernel object, with exactly the calls a
               state makes (kernel(features, features), kernel(features, feature), kernel(features, X*)).
 J  jitter:    E = L L^T - K (L = state.chol_fact; K = lower triangle of the Gram matrix mirrored, which
@@ -119,8 +121,14 @@ ASSUMPTIONS = [
     "s_j > 0 is accepted only if the posterior covariance S* is numerically singular (a shift is then needed for "
     "the factorisation); otherwise it is a violation (the code starts its jitter search at 1e-5 instead of 0, "
     "see known finding C08-F1); shifts that cannot be resolved to 1e-7 are not judged",
-    "composed kernels (products with exponential-decay / freeze-thaw factors, warped or not): no closed-form "
-    "reference; they must be self-consistent (symmetry, pair calls, diag(K(X,X)) == diagonal(X) within the "
+    "exponential-decay / freeze-thaw / Fabolas kernels and every composition of them have an independent reference "
+    "derived from the generative model of the class docstrings (f = h(1 - delta e) + gamma e, E e = kappa, "
+    "E e e' = kappa(r+r'); freeze-thaw: one independent decay per configuration; Fabolas: (U phi)^T(U phi)), "
+    "evaluated in extended precision with the installed parameter values: Gram entries, diagonal() and the "
+    "exponential-decay mean function are compared with it (round-off band widened by 8(1+alpha): kappa = "
+    "base^alpha amplifies the rounding of its base); delta of the exponential-decay kernel is free, or fixed to "
+    "0, to 1, or to a value strictly inside (0,1); the configuration mean value is mostly +-0.3..2",
+    "composed kernels must additionally be self-consistent (symmetry, pair calls, diag(K(X,X)) == diagonal(X) within the "
     "regulariser band, diagonal_depends_on_X() == False only if diagonal() and the Gram diagonal do not vary), "
     "then the posterior / incremental clauses run on their Gram matrices; a case whose diagonal() disagrees "
     "with the Gram diagonal stops after stage K (the prior variance is ambiguous)",
@@ -137,8 +145,6 @@ ASSUMPTIONS = [
     "m consecutive draws and the generator must have advanced by exactly m draws (also with mean_impute_mask)",
     "FabolasKernelFunction factors are generated only with INCLUDE_FABOLAS (its forward() ignores u2 and u3: "
     "candidate finding C08-F2)",
-    "exponential-decay resource kernel and its mean function: values are taken from the objects (self-"
-    "consistency checked), only the posterior algebra is checked against the dense definition",
     "states whose system matrix has 8 eps cond(A) > 1e-3 are inconclusive for the value clauses",
     "the tuple covariance scale has no box constraint of its own: it is drawn such that (kernel covariance scale x "
     "tuple scale) is log-uniform in the box [1e-3, 1e3] of the covariance scale",
@@ -244,6 +250,9 @@ def floors(tier):
         "cell:kind:mcmc": 100, "mcmc:states_checked": 350, "cell:mcmc_ge2_distinct_samples": 70,
         "decided:mcmc_state_params": 350, "mcmc:recompute_states": 60, "mcmc:recompute_fantasies": 20,
         "mcmc:assigned_samples": 30, "decided:sample_marginals": 200, "decided:mcmc_model_predict": 100,
+        "cell:expdecay_delta:free": 20, "cell:expdecay_delta:fixed_0": 8, "cell:expdecay_delta:fixed_1": 12,
+        "cell:expdecay_delta:fixed_interior": 35, "cell:expdecay_delta_fixed_interior_and_mean_nonzero": 30,
+        "cell:expdecay_mean_nonzero": 90, "decided:expdecay_mean_function": 45,
         "cell:kind:history": 100, "decided:state_holds_data_passed": 800, "decided:states_after_fit": 80,
         "decided:states_after_recompute_states": 45, "decided:states_after_refit_with_all_restarts_failed": 70,
         "decided:states_after_refit_with_all_restarts_failed:data_changed": 55,
@@ -253,7 +262,7 @@ def floors(tier):
         "cell:kind:composed": 120, "decided:diagonal_flag": 1000, "diagonal_flag:True": 150,
         "diagonal_flag:False": 600, "roundtrip:composed": 50,
         "decided:params_roundtrip": 400, "roundtrip:gpr": 35,
-        "decided:kernel_textbook": 2000, "decided:kernel_pairwise": 9000, "decided:warp_transform": 100,
+        "decided:kernel_textbook": 5000, "decided:kernel_pairwise": 9000, "decided:warp_transform": 100,
         "decided:jitter_structure": 3500, "decided:jitter_sequence": 100, "decided:jitter_minimal": 100,
         "decided:predict_mean": 1500, "decided:predict_variance": 1500, "decided:variance_bounds": 1700,
         "decided:nlml": 650, "decided:joint_covariance": 2000, "decided:joint_offset": 500,
@@ -419,45 +428,121 @@ def _matern(rng, d, spec, o):
     return k, ib, c, req["ard"]
 
 
+# Independent references for the learning-curve kernels, derived from the generative model the class docstrings
+# and Tiao et al. (2020, arXiv:2003.10865, appendix) describe, not from the code:
+#     f(x, r) = h(x) (1 - delta e(r)) + gamma e(r),   h ~ GP(mu_x, k_x) independent of the random decay e,
+#     E e(r) = kappa(r) = (beta / (r + beta))^alpha,  beta = alpha / mean_lam,   E e(r) e(r') = kappa(r + r')
+# which gives  E f = mu + kappa(r) (gamma - delta mu)  and
+#     Cov = k_x(x,x') [1 - delta (kappa(r) + kappa(r') - delta kappa(r+r'))]
+#           + (gamma - delta mu(x)) (gamma - delta mu(x')) [kappa(r+r') - kappa(r) kappa(r')].
+# Freeze-thaw (delta = 0, one independent decay per configuration):
+#     Cov = k_x(x,x') + [x == x'] gamma^2 [kappa(r+r') - kappa(r) kappa(r')].
+def ref_kappa(r, alpha, mean_lam):
+    W = dg.WORK
+    beta = W(alpha) / W(mean_lam)
+    return np.power(beta / (np.asarray(r, dtype=W) + beta), W(alpha))
+
+
+def ref_expdecay(X1, X2, kx_ref, mu, alpha, mean_lam, gamma, delta, off):
+    W = dg.WORK
+    r1, r2 = np.asarray(X1[:, -1], dtype=W).reshape(-1, 1), np.asarray(X2[:, -1], dtype=W).reshape(1, -1)
+    k1, k2, k12 = ref_kappa(r1, alpha, mean_lam), ref_kappa(r2, alpha, mean_lam), ref_kappa(r1 + r2, alpha, mean_lam)
+    de, ga, mu = W(delta), W(gamma), W(mu)
+    pref = ga - de * mu  # constant config mean
+    return kx_ref(X1[:, :-1], X2[:, :-1], off) * (W(1) - de * (k1 + k2 - de * k12)) + pref * pref * (k12 - k1 * k2)
+
+
+def ref_expdecay_mean(X, mu, alpha, mean_lam, gamma, delta):
+    W = dg.WORK
+    return W(mu) + ref_kappa(np.asarray(X[:, -1], dtype=W), alpha, mean_lam) * (W(gamma) - W(delta) * W(mu))
+
+
+def ref_freezethaw(X1, X2, kx_ref, alpha, mean_lam, gamma, off):
+    W = dg.WORK
+    r1, r2 = np.asarray(X1[:, -1], dtype=W).reshape(-1, 1), np.asarray(X2[:, -1], dtype=W).reshape(1, -1)
+    k1, k2, k12 = ref_kappa(r1, alpha, mean_lam), ref_kappa(r2, alpha, mean_lam), ref_kappa(r1 + r2, alpha, mean_lam)
+    same = np.all(X1[:, None, :-1] == X2[None, :, :-1], axis=2)
+    return kx_ref(X1[:, :-1], X2[:, :-1], off) + same * (W(gamma) * W(gamma)) * (k12 - k1 * k2)
+
+
+def _curve_params(rng):
+    return {"alpha": _logu(rng, 1e-6 * 1.01, 250.0 * 0.99, corner=0.03),
+            "mean_lam": _logu(rng, 1e-4 * 1.01, 50.0 * 0.99, corner=0.03),
+            "gamma": _logu(rng, 1e-4 * 1.01, 1.0 * 0.99, corner=0.03)}
+
+
+def _config_mean_value(rng):
+    """mean value of the configuration mean function: mostly clearly non-zero (+-0.3..2), sometimes small / 0."""
+    u = rng.random()
+    if u < 0.7:
+        return float(rng.choice([-1.0, 1.0]) * rng.uniform(0.3, 2.0))
+    return 0.0 if u < 0.8 else float(rng.normal() * 0.3)
+
+
 def _expdecay(rng, dx, spec, o):
-    """ExponentialDecayResourcesKernelFunction over (x (dx), r); parameters log-uniform in their boxes."""
+    """ExponentialDecayResourcesKernelFunction over (x (dx), r). delta: free parameter, or fixed to 0, to 1 or to a
+    value strictly inside (0, 1); non-zero configuration mean; alpha, mean_lam, gamma log-uniform in their boxes.
+    Returns (kernel, ib, c, ard, kscale, info) with info = installed values + reference functions."""
     G = _imports()
     kx, ib, c, ard = _matern(rng, dx, spec, o)
     mx = G["ScalarMeanFunction"]()
     mx.collect_params().initialize()
-    delta_fixed = None
     r = rng.random()
-    if r < 0.3:
+    if "delta_fixed" in spec:
+        delta_fixed = spec["delta_fixed"]
+    elif r < 0.25:
+        delta_fixed = None
+    elif r < 0.42:
         delta_fixed = 0.0
-    elif r < 0.5:
-        delta_fixed = float(rng.uniform(0, 1))
+    elif r < 0.6:
+        delta_fixed = 1.0
+    else:
+        delta_fixed = float(rng.uniform(0.05, 0.95))
     k = G["ExponentialDecayResourcesKernelFunction"](kx, mx, delta_fixed_value=delta_fixed)
     k.collect_params().initialize()
-    pd = dict(k.get_params())
-    pd["alpha"] = _logu(rng, 1e-6 * 1.01, 250.0 * 0.99, corner=0.03)
-    pd["mean_lam"] = _logu(rng, 1e-4 * 1.01, 50.0 * 0.99, corner=0.03)
-    pd["gamma"] = _logu(rng, 1e-4 * 1.01, 1.0 * 0.99, corner=0.03)
+    pd = {kk: _f(v) for kk, v in k.get_params().items()}
+    pd.update(_curve_params(rng))
     if delta_fixed is None:
         pd["delta"] = float(rng.choice([0.0, 1.0, rng.uniform(0, 1), rng.uniform(0, 1)]))
-    pd["meanx_mean_value"] = float(rng.normal() * 0.3)
-    k.set_params({kk: _f(v) for kk, v in pd.items()})
-    kscale = c * 4.0 + (abs(pd["gamma"]) + abs(pd["meanx_mean_value"])) ** 2
-    return k, ib, c, ard, kscale
+    pd["meanx_mean_value"] = float(spec.get("meanx", _config_mean_value(rng)))
+    k.set_params(dict(pd))
+    g = k.get_params()
+    for kk in ("alpha", "mean_lam", "gamma", "delta", "meanx_mean_value"):
+        if kk in pd:
+            o.count("decided:param_readback")
+            if not abs(_f(g[kk]) - pd[kk]) <= 1e-12 * abs(pd[kk]):
+                o.violate("parameters", "set_params_value_not_taken:expdecay_" + kk, {"set": pd[kk], "get": _f(g[kk])})
+    delta = pd["delta"] if delta_fixed is None else delta_fixed
+    mu, al, ml, ga = pd["meanx_mean_value"], pd["alpha"], pd["mean_lam"], pd["gamma"]
+    kscale = c * 4.0 + (abs(ga) + abs(mu)) ** 2
+    kx_ref = lambda A1, A2, off: dg.matern52(A1, A2, ib, c, off)  # noqa: E731
+    info = {
+        "alpha": al, "mean_lam": ml, "gamma": ga, "delta": delta, "mu": mu,
+        "delta_class": ("free" if delta_fixed is None else "fixed_0" if delta_fixed == 0.0 else "fixed_1" if delta_fixed == 1.0
+                        else "fixed_interior"),
+        "own": lambda A1, A2, off: ref_expdecay(A1, A2, kx_ref, mu, al, ml, ga, delta, off),
+        "mean": lambda A: ref_expdecay_mean(A, mu, al, ml, ga, delta),
+        "rf_extra": 8.0 * (1.0 + al),  # kappa = base^alpha: the rounding of the base is amplified by alpha
+    }
+    return k, ib, c, ard, kscale, info
 
 
 def _leaf(rng, what, spec, o):
-    """One factor of a composed kernel: dict(kernel, dim, kscale, jf, rfparts, nonstat, res_cols, ard, ard_dim, c)."""
+    """One factor of a composed kernel: dict(kernel, dim, kscale, jf, rfparts, nonstat, res_cols, ard, ard_dim, c,
+    own = reference formula on the factor's own coordinates, rf_extra)."""
     G = _imports()
     if what == "matern":
         d = int(rng.integers(1, 4))
         k, ib, c, ard = _matern(rng, d, spec, o)
         return dict(kernel=k, dim=d, kscale=c, jf=1.0, rfparts=[(slice(0, d), ib)], nonstat=False, res_cols=[],
-                    ard=ard, ard_dim=d if ard else 0, c=c)
+                    ard=ard, ard_dim=d if ard else 0, c=c, rf_extra=0.0,
+                    own=lambda A1, A2, off: dg.matern52(A1, A2, ib, c, off))
     if what == "expdecay":
         dx = int(rng.integers(1, 4))
-        k, ib, c, ard, kscale = _expdecay(rng, dx, spec, o)
+        k, ib, c, ard, kscale, info = _expdecay(rng, dx, spec, o)
         return dict(kernel=k, dim=dx + 1, kscale=kscale, jf=1.0, rfparts=[(slice(0, dx), ib)], nonstat=True,
-                    res_cols=[dx], ard=ard, ard_dim=dx if ard else 0, c=c)
+                    res_cols=[dx], ard=ard, ard_dim=dx if ard else 0, c=c, rf_extra=info["rf_extra"], own=info["own"],
+                    ed=info)
     if what == "freezethaw":
         dx = int(rng.integers(1, 4))
         kx, ib, c, ard = _matern(rng, dx, spec, o)
@@ -466,20 +551,28 @@ def _leaf(rng, what, spec, o):
         k = G["FreezeThawKernelFunction"](kx, mx)
         k.collect_params().initialize()
         pd = {kk: _f(v) for kk, v in k.get_params().items()}
-        pd["alpha"] = _logu(rng, 1e-6 * 1.01, 250.0 * 0.99, corner=0.03)
-        pd["mean_lam"] = _logu(rng, 1e-4 * 1.01, 50.0 * 0.99, corner=0.03)
-        pd["gamma"] = _logu(rng, 1e-4 * 1.01, 1.0 * 0.99, corner=0.03)
-        pd["meanx_mean_value"] = float(rng.normal() * 0.3)
-        k.set_params(pd)
-        return dict(kernel=k, dim=dx + 1, kscale=c + pd["gamma"] ** 2, jf=1.0, rfparts=[(slice(0, dx), ib)],
-                    nonstat=True, res_cols=[dx], ard=ard, ard_dim=dx if ard else 0, c=c)
+        pd.update(_curve_params(rng))
+        pd["meanx_mean_value"] = _config_mean_value(rng)
+        k.set_params(dict(pd))
+        al, ml, ga = pd["alpha"], pd["mean_lam"], pd["gamma"]
+        kx_ref = lambda A1, A2, off: dg.matern52(A1, A2, ib, c, off)  # noqa: E731
+        return dict(kernel=k, dim=dx + 1, kscale=c + ga ** 2, jf=1.0, rfparts=[(slice(0, dx), ib)],
+                    nonstat=True, res_cols=[dx], ard=ard, ard_dim=dx if ard else 0, c=c, rf_extra=8.0 * (1.0 + al),
+                    own=lambda A1, A2, off: ref_freezethaw(A1, A2, kx_ref, al, ml, ga, off))
     if what == "fabolas":
         k = G["FabolasKernelFunction"]()
         k.collect_params().initialize()
         u1, u2, u3 = _logu(rng, 1e-3, 1e3), _logu(rng, 1e-3, 1e3), float(rng.normal())
         k.set_params({"u1": u1, "u2": u2, "u3": u3})
-        return dict(kernel=k, dim=1, kscale=(u1 + abs(u3)) ** 2 + u2 ** 2 + u1 ** 2 * (2 + abs(math.log(u1))) ** 2,
-                    jf=0.0, rfparts=[], nonstat=True, res_cols=[], ard=False, ard_dim=0, c=u1)
+
+        def fab(A1, A2, off):  # docstring: k(x,y) = (U phi(x))^T (U phi(y)), phi = [1, (1-x)^2], U = [[u1,u3],[0,u2]]
+            W = dg.WORK
+            t1 = (W(1) - np.asarray(A1[:, :1], dtype=W)) ** 2
+            t2 = ((W(1) - np.asarray(A2[:, :1], dtype=W)) ** 2).T
+            return (W(u1) + W(u3) * t1) * (W(u1) + W(u3) * t2) + W(u2) * W(u2) * t1 * t2
+
+        return dict(kernel=k, dim=1, kscale=(u1 + abs(u3)) ** 2 + u2 ** 2, jf=0.0, rfparts=[], nonstat=True, res_cols=[],
+                    ard=False, ard_dim=0, c=u1, rf_extra=4.0, own=fab)
     raise ValueError(what)
 
 
@@ -500,12 +593,16 @@ def _build_composed(rng, spec, o, M):
         rfparts = list(A["rfparts"]) + [(slice(sl.start + off, sl.stop + off), ib) for sl, ib in B["rfparts"]]
         res_cols = list(A["res_cols"]) + [c_ + off for c_ in B["res_cols"]]
         kscale, jf = A["kscale"] * B["kscale"], A["jf"] + B["jf"]
+        own = (lambda oa, ob, off_: (lambda A1, A2, o_: oa(A1[:, :off_], A2[:, :off_], o_) * ob(A1[:, off_:], A2[:, off_:], o_)))(
+            A["own"], B["own"], off)
+        rf_extra = A["rf_extra"] + B["rf_extra"]
         blocks = [(0, A["dim"], A["nonstat"]), (off, dim, B["nonstat"])]
         ard, ard_dim, c_ne_1 = A["ard"] or B["ard"], max(A["ard_dim"], B["ard_dim"]), (A["c"] * B["c"] != 1.0)
     else:
         A = _leaf(rng, inner, spec, o)
         kernel, dim, rfparts, res_cols = A["kernel"], A["dim"], list(A["rfparts"]), list(A["res_cols"])
         kscale, jf = A["kscale"], A["jf"]
+        own, rf_extra = A["own"], A["rf_extra"]
         blocks = [(0, dim, A["nonstat"])]
         ard, ard_dim, c_ne_1 = A["ard"], A["ard_dim"], (A["c"] != 1.0)
     M.d = dim
@@ -522,7 +619,11 @@ def _build_composed(rng, spec, o, M):
             ranges = [(lo, int(rng.integers(lo + 1, dim + 1)))]
         kernel, M.code_warp, M.wpars = _wrap_warping(rng, kernel, dim, ranges, o)
         M.rf_input = M.code_warp
-    M.kernel, M.kscale, M.jf, M.rfparts, M.own = kernel, kscale, max(jf, 1.0), rfparts, None
+    if warp:  # the warp itself is checked separately: the inner reference is evaluated on the code's warped inputs
+        own = (lambda f_, w_: (lambda A1, A2, o_: f_(w_(A1), w_(A2), o_)))(own, M.code_warp)
+    M.kernel, M.kscale, M.jf, M.rfparts, M.own = kernel, kscale, max(jf, 1.0), rfparts, own
+    M.own_name, M.diag_is_scale, M.rf_extra = "composed_kernel", False, rf_extra
+    M.ed = A.get("ed") or (B.get("ed") if inner.startswith("prod(") else None)
     M.res_cols = res_cols
     M.comp = cls
     M.flags.update(ard=ard, c_ne_1=c_ne_1, ard_dim=ard_dim)
@@ -717,33 +818,12 @@ def build_model(rng, spec, o):
         M.flags.update(ard=ard, c_ne_1=(c != 1.0), ard_dim=(d if ard else 0))
         M.pars = {"ib": ib.tolist(), "c": c, "warp": [(lo, hi, a.tolist(), b.tolist()) for lo, hi, a, b in wpars]}
     elif kind == "expdecay":
-        kx, ib, c, ard = _matern(rng, d - 1, spec, o)
-        mx = G["ScalarMeanFunction"]()
-        mx.collect_params().initialize()
-        delta_fixed = None
-        r = rng.random()
-        if r < 0.3:
-            delta_fixed = 0.0
-        elif r < 0.5:
-            delta_fixed = float(rng.uniform(0, 1))
-        k = G["ExponentialDecayResourcesKernelFunction"](kx, mx, delta_fixed_value=delta_fixed)
-        k.collect_params().initialize()
-        pd = dict(k.get_params())
-        pd["alpha"] = _logu(rng, 1e-6 * 1.01, 250.0 * 0.99, corner=0.03)
-        pd["mean_lam"] = _logu(rng, 1e-4 * 1.01, 50.0 * 0.99, corner=0.03)
-        pd["gamma"] = _logu(rng, 1e-4 * 1.01, 1.0 * 0.99, corner=0.03)
-        if delta_fixed is None:
-            pd["delta"] = float(rng.choice([0.0, 1.0, rng.uniform(0, 1), rng.uniform(0, 1)]))
-        pd["meanx_mean_value"] = float(rng.normal() * 0.3)
-        k.set_params({kk: _f(v) for kk, v in pd.items()})
-        M.kernel = k
-        gam = _f(k.get_params()["gamma"])
-        mv = abs(_f(k.get_params()["meanx_mean_value"]))
-        M.kscale = c * 4.0 + (gam + mv) ** 2
-        M.own = None
+        k, ib, c, ard, kscale, info = _expdecay(rng, d - 1, spec, o)
+        M.kernel, M.kscale = k, kscale
+        M.own, M.own_name, M.diag_is_scale, M.rf_extra, M.ed = info["own"], "expdecay_kernel", False, info["rf_extra"], info
         M.rfparts = [(slice(0, d - 1), ib)]
         M.flags.update(ard=ard, c_ne_1=(c != 1.0), ard_dim=((d - 1) if ard else 0))
-        M.pars = {kk: _f(v) for kk, v in k.get_params().items()}
+        M.pars = dict({kk: _f(v) for kk, v in k.get_params().items()}, delta=info["delta"], delta_class=info["delta_class"])
     elif kind == "composed":
         _build_composed(rng, spec, o, M)
         d = M.d
@@ -885,7 +965,7 @@ def _rf(M, X1, X2):
     """round-off factor 1 + 5 (|ib*x_i|^2 + |ib*x_j|^2) of the squared-distance expansion."""
     f = getattr(M, "rf_input", None)
     W1, W2 = (f(X1), f(X2)) if f else (X1, X2)
-    out = np.ones((X1.shape[0], X2.shape[0]))
+    out = np.ones((X1.shape[0], X2.shape[0])) * (1.0 + getattr(M, "rf_extra", 0.0))
     for sl, ib in M.rfparts:
         a1 = np.sum((W1[:, sl] * ib) ** 2, axis=1)
         a2 = np.sum((W2[:, sl] * ib) ** 2, axis=1)
@@ -986,6 +1066,7 @@ def stage_kernel(o, M, X, Xt, rng, do_mp):
             o.violate("kernel", "kernel:pair_value_differs_from_gram_entry",
                       {"i": i, "j": j, "pair": v, "gram": float(Kxx[i, j]), "band": float(bxx[i, j]), "XX": True})
     # own textbook formula
+    own_name = getattr(M, "own_name", "matern52")
     if M.own is not None:
         for nm, K_, A1, A2, b_ in (("Kxx", Kxx, X, X, bxx), ("Kxt", Kxt, X, Xt, bxt), ("Ktt", Ktt, Xt, Xt, btt)):
             ref_reg = np.asarray(M.own(A1, A2, NJ), dtype=np.float64)
@@ -993,20 +1074,28 @@ def stage_kernel(o, M, X, Xt, rng, do_mp):
             o.count("decided:kernel_textbook")
             bad = False
             if _exceeds(K_ - ref_txt, jb + b_):
-                o.violate("kernel", "kernel:entry_differs_from_textbook_matern52",
+                o.violate("kernel", "kernel:entry_differs_from_textbook_" + own_name,
                           dict(_wit(K_ - ref_txt, jb + b_), which=nm, pars=M.pars))
                 bad = True
             if not bad and _exceeds(K_ - ref_reg, b_):
-                o.violate("kernel", "kernel:entry_differs_from_regularised_matern52",
+                o.violate("kernel", "kernel:entry_differs_from_regularised_" + own_name,
                           dict(_wit(K_ - ref_reg, b_), which=nm, pars=M.pars))
             else:
                 if np.max(np.abs(K_ - ref_reg) / b_) > 0.25:
                     o.count("near_tol:kernel")
-        dref = sc * np.ones(n)
         o.count("decided:kernel_prior_variance")
-        if _exceeds(dX - dref, 4 * EPS * sc) or _exceeds(dT - sc, 4 * EPS * sc):
-            o.violate("kernel", "kernel:diagonal()_differs_from_covariance_scale",
-                      {"diag": float(dX[0]), "scale": sc})
+        if getattr(M, "diag_is_scale", True):
+            dref = sc * np.ones(n)
+            if _exceeds(dX - dref, 4 * EPS * sc) or _exceeds(dT - sc, 4 * EPS * sc):
+                o.violate("kernel", "kernel:diagonal()_differs_from_covariance_scale",
+                          {"diag": float(dX[0]), "scale": sc})
+        else:
+            # input-dependent prior variance: diagonal() against the reference k(x, x) (textbook k_x(x,x) = scale)
+            for nm, d_, A_, b_ in (("X", dX, X, bxx), ("Xt", dT, Xt, btt)):
+                dref = np.float64(np.diag(np.asarray(M.own(A_, A_, 0.0))))
+                if _exceeds(d_ - dref, jb + np.diag(b_)):
+                    o.violate("kernel", "kernel:diagonal()_differs_from_reference_" + own_name,
+                              dict(_wit(d_ - dref, jb + np.diag(b_)), which=nm, pars=M.pars))
     if getattr(M, "wpars", None):
         W = M.code_warp(Xt)
         Wref = np.array(Xt, dtype=dg.WORK)
@@ -1833,6 +1922,19 @@ def _run(spec, o, sig):
     KS = stage_kernel(o, M, X, Xt, rng, do_mp)
     if getattr(M, "comp", None):
         o.count("stage_K:comp:" + M.comp)
+    if M.mean_kind == "expdecay":
+        # ExponentialDecayResourcesMeanFunction: mu + kappa(r) (gamma - delta mu)
+        ed = M.ed
+        o.count("decided:expdecay_mean_function")
+        for nm, A_ in (("X", X), ("Xt", Xt)):
+            code = np.asarray(_call(o, "mean(X)", M.mean, A_), dtype=np.float64).reshape(-1)
+            ref = np.float64(ed["mean"](A_))
+            band = TOL["Ck"] * EPS * (abs(ed["mu"]) + abs(ed["gamma"]) + abs(ed["delta"] * ed["mu"])) * (1.0 + ed["rf_extra"])
+            if code.shape != ref.shape or _exceeds(code - ref, band):
+                o.violate("mean", "mean:expdecay_mean_function_differs_from_reference",
+                          dict(_wit(code - ref, np.ones_like(ref) * band) if code.shape == ref.shape else {}, which=nm,
+                               delta_class=ed["delta_class"], delta=ed["delta"], mean_value=ed["mu"], gamma=ed["gamma"]))
+                break
     if not KS["diag_ok"]:
         # the prior variance is ambiguous (diagonal() disagrees with the Gram matrix): the posterior stages,
         # which take k** and the new diagonal entries from diagonal(), would only repeat this
@@ -2129,6 +2231,12 @@ def _run(spec, o, sig):
         if n_near:
             o.count("cell:near_duplicates")
         o.count("cell:kind:" + kind)
+        if getattr(M, "ed", None):
+            o.count("cell:expdecay_delta:" + M.ed["delta_class"])
+            if M.ed["mu"] != 0.0:
+                o.count("cell:expdecay_mean_nonzero")
+                if M.ed["delta_class"] == "fixed_interior":
+                    o.count("cell:expdecay_delta_fixed_interior_and_mean_nonzero")
         if getattr(M, "comp", None):
             o.count("cell:comp:" + M.comp)
             if r >= 1:
